@@ -272,6 +272,23 @@ class OkImplies:
             return frozenset()
         return TOP
 
+    @staticmethod
+    def _untuple(body, pl):
+        """place `_t.k...` where `_t` is a tuple built once in this body from operands: the k-th operand's place"""
+        for _ in range(3):
+            if not pl["p"] or not re.match(r"^\.\d+:", pl["p"][0]):
+                return pl
+            ds = [d for d in body.defs().get(pl["l"], [])]
+            if len(ds) != 1 or ds[0][1] == "T" or ds[0][2]["d"]["p"] or ds[0][2]["rv"]["r"] != "agg" or ds[0][2]["rv"].get("ak") != "tuple":
+                return pl
+            k = int(pl["p"][0][1:].split(":", 1)[0])
+            ops = ds[0][2]["rv"]["ops"]
+            q = op_place(ops[k]) if k < len(ops) else None
+            if q is None:
+                return pl
+            pl = {"l": q["l"], "p": list(q["p"]) + list(pl["p"][1:])}
+        return pl
+
     def edge_facts(self, body, p, s):
         """facts gained by taking CFG edge p->s"""
         t = body.blocks[p]["t"]
@@ -300,6 +317,7 @@ class OkImplies:
             ds = [d for d in body.defs().get(l, []) if not d[2]["d"]["p"]]
             if len(ds) == 1 and ds[0][1] != "T" and ds[0][2]["rv"]["r"] == "disc":
                 rv = ds[0][2]["rv"]
+                rv = dict(rv, p=self._untuple(body, rv["p"]))      # match (a(), b) { (Ok(x), ..) => .. }: element 0 is a()'s result
                 dty = rv["ty"]
                 okv = self._ok_disc(dty)
                 listed = [v for v, _ in t["v"]]
